@@ -439,9 +439,206 @@ macro_rules! r {
     };
 }
 
+static STAMP: std::sync::atomic::AtomicU64 = std::sync::atomic::AtomicU64::new(1);
+fn stamp() -> u64 {
+    STAMP.fetch_add(1, Ordering::SeqCst)
+}
+
+struct Lcg(u64);
+impl Lcg {
+    fn next(&mut self, n: u64) -> u64 {
+        self.0 = self
+            .0
+            .wrapping_mul(6364136223846793005)
+            .wrapping_add(1442695040888963407);
+        (self.0 >> 33) % n.max(1)
+    }
+}
+
 impl Node {
     fn c(&self, s: &str) -> Option<&TcpClient> {
         self.conns.get(&s.parse::<u32>().unwrap())
+    }
+
+    async fn settle(&self) {
+        let mut last = u64::MAX;
+        let mut stable = 0;
+        while stable < 3 {
+            tokio::time::sleep(std::time::Duration::from_millis(8)).await;
+            let s = dir_size(&self.dir);
+            if s == last {
+                stable += 1;
+            } else {
+                stable = 0;
+                last = s;
+            }
+        }
+    }
+
+    async fn worker_client(&self) -> Result<TcpClient, String> {
+        let mut cfg = TcpClientConfig::default();
+        cfg.server_address = self.addr.clone();
+        cfg.reconnection.enabled = false;
+        cfg.heartbeat_interval = IggyDuration::from_str("1000h").unwrap();
+        let client = TcpClient::create(Arc::new(cfg)).map_err(|e| err_name(&e))?;
+        client.connect().await.map_err(|e| err_name(&e))?;
+        client
+            .login_user("iggy", "iggy")
+            .await
+            .map_err(|e| err_name(&e))?;
+        Ok(client)
+    }
+
+    /// stress <s> <t> <pid> <producers> <consumers> <batches> <maxbatch> <seed> <bgsave 0|1> <idbase> <logfile>
+    /// Real concurrency: every worker has its own connection and runs as its own task on the
+    /// multi-threaded runtime. Every request is stamped (global counter) before it is sent and after its
+    /// answer arrived. The log holds one trace line per request.
+    async fn stress(&mut self, f: &[&str]) -> String {
+        let (s, t) = (f[1].to_string(), f[2].to_string());
+        let pid: u32 = f[3].parse().unwrap();
+        let np: u64 = f[4].parse().unwrap();
+        let nc: u64 = f[5].parse().unwrap();
+        let batches: u64 = f[6].parse().unwrap();
+        let maxb: u64 = f[7].parse().unwrap();
+        let seed: u64 = f[8].parse().unwrap();
+        let bg = f[9] == "1";
+        let idbase: u64 = f[10].parse().unwrap();
+        let logfile = f[11].to_string();
+        let log = Arc::new(std::sync::Mutex::new(Vec::<String>::new()));
+        let acked = Arc::new(std::sync::atomic::AtomicU64::new(0));
+        let done = Arc::new(AtomicBool::new(false));
+        let mut prods = vec![];
+        for p in 0..np {
+            let client = match self.worker_client().await {
+                Ok(c) => c,
+                Err(e) => return e,
+            };
+            let (s, t, log, acked) = (s.clone(), t.clone(), log.clone(), acked.clone());
+            prods.push(tokio::spawn(async move {
+                let mut rng = Lcg(seed ^ (p + 1).wrapping_mul(0x9E3779B97F4A7C15));
+                for seq in 0..batches {
+                    let n = 1 + rng.next(maxb);
+                    let spec: Vec<String> = (0..n)
+                        .map(|k| {
+                            let id = idbase + (p + 1) * 1_000_000 + seq * 1000 + k;
+                            format!("{id}:{}:{id}:0", 8 + rng.next(40))
+                        })
+                        .collect();
+                    let spec = spec.join(",");
+                    let mut msgs = messages(&spec);
+                    let b = stamp();
+                    let res = client
+                        .send_messages(
+                            &ident(&s),
+                            &ident(&t),
+                            &iggy::messages::send_messages::Partitioning::partition_id(pid),
+                            &mut msgs,
+                        )
+                        .await;
+                    let e = stamp();
+                    let r = match res {
+                        Ok(()) => {
+                            acked.fetch_add(n, Ordering::SeqCst);
+                            "ok".to_string()
+                        }
+                        Err(e) => err_name(&e),
+                    };
+                    log.lock().unwrap().push(format!(
+                        "x-ack {b} {e} {p} {seq} {s} {t} {pid} {spec}\t{r}"
+                    ));
+                    if rng.next(3) == 0 {
+                        tokio::task::yield_now().await;
+                    }
+                }
+            }));
+        }
+        let mut cons = vec![];
+        for c in 0..nc {
+            let client = match self.worker_client().await {
+                Ok(c) => c,
+                Err(e) => return e,
+            };
+            let (s, t, log, acked, done) =
+                (s.clone(), t.clone(), log.clone(), acked.clone(), done.clone());
+            cons.push(tokio::spawn(async move {
+                let mut rng = Lcg(seed ^ (c + 101).wrapping_mul(0xC2B2AE3D27D4EB4F));
+                let mut polls = 0;
+                while !done.load(Ordering::SeqCst) && polls < 4000 {
+                    polls += 1;
+                    let hi = acked.load(Ordering::SeqCst) + 3;
+                    // mostly near the head, where appends are happening
+                    let off = if rng.next(3) == 0 {
+                        rng.next(hi)
+                    } else {
+                        hi.saturating_sub(1 + rng.next(2 * maxb + 4))
+                    };
+                    let count = 1 + rng.next(2 * maxb + 3) as u32;
+                    let b = stamp();
+                    let res = client
+                        .poll_messages(
+                            &ident(&s),
+                            &ident(&t),
+                            Some(pid),
+                            &consumer(&format!("c:#{}", 50 + c)),
+                            &strategy(&format!("offset:{off}")),
+                            count,
+                            false,
+                        )
+                        .await;
+                    let e = stamp();
+                    let r = match res {
+                        Ok(p) => format!(
+                            "ok {} {} {}",
+                            p.partition_id,
+                            p.current_offset,
+                            p.messages.iter().map(polled).collect::<Vec<_>>().join(",")
+                        ),
+                        Err(e) => err_name(&e),
+                    };
+                    log.lock().unwrap().push(format!(
+                        "x-poll {b} {e} {s} {t} {pid} {off} {count}\t{r}"
+                    ));
+                }
+            }));
+        }
+        let bgtask = if bg {
+            let (system, done) = (self.system.clone(), done.clone());
+            Some(tokio::spawn(async move {
+                let mut n = 0u64;
+                while !done.load(Ordering::SeqCst) {
+                    let _ = system.read().await.persist_messages().await;
+                    n += 1;
+                    tokio::time::sleep(std::time::Duration::from_micros(300)).await;
+                }
+                n
+            }))
+        } else {
+            None
+        };
+        let mut failed = false;
+        for h in prods {
+            failed |= h.await.is_err();
+        }
+        done.store(true, Ordering::SeqCst);
+        for h in cons {
+            failed |= h.await.is_err();
+        }
+        if let Some(h) = bgtask {
+            let _ = h.await;
+        }
+        if failed {
+            return "err worker-panicked".into();
+        }
+        if self.nowait {
+            self.settle().await;
+        }
+        let lines = log.lock().unwrap();
+        let nack = lines.iter().filter(|l| l.starts_with("x-ack")).count();
+        let npoll = lines.len() - nack;
+        if std::fs::write(&logfile, lines.join("\n") + "\n").is_err() {
+            return "err cannot-write-log".into();
+        }
+        format!("ok acks={nack} polls={npoll}")
     }
 
     async fn op(&mut self, f: &[&str]) -> String {
@@ -556,11 +753,15 @@ impl Node {
             "release" => {
                 server::verif::release(f[1]);
                 // let the released task run
-                for _ in 0..20 {
-                    tokio::time::sleep(std::time::Duration::from_millis(2)).await;
-                }
+                self.settle().await;
                 "ok".into()
             }
+            "settle" => {
+                // no-wait confirmation: wait until the persister task has nothing left to write
+                self.settle().await;
+                "ok".into()
+            }
+            "stress" => self.stress(f).await,
             "raw-open" => {
                 match tokio::net::TcpStream::connect(&self.addr).await {
                     Ok(st) => {
